@@ -13,7 +13,7 @@ MANIFEST = {
         "technique": "Lean 4 proof over a checked-memory model of Unicode.hpp / String::fromHex / fromBase64 / integer conversions "
                      "(tables, masks, guard and encoder range tests regenerated from the sources by tools/gen_codec.py) + differential "
                      "correspondence of the compiled model with the real code under ASan/UBSan, incl. all 1,114,112 code points",
-        "text": "Theorems (all inputs, no bounds; Nstd/Codec/Props.lean, 24 obligations, none partial): toString(cp) = RFC 3629 encoding and "
+        "text": "Theorems (all inputs, no bounds; Nstd/Codec/Props.lean, 25 obligations, none partial): toString(cp) = RFC 3629 encoding and "
                 "fromString(toString(cp)) = cp for every cp < 0x110000 (range lemmas, no enumeration), also in front of arbitrary trailing "
                 "bytes; empty result above U+10FFFF; isValid = the structural well-formedness predicate for EVERY byte string and accepts every "
                 "concatenation of encoded code points; fromString/isValid never read outside the range they are given and length() never "
@@ -27,12 +27,13 @@ MANIFEST = {
                 "codecs/base64/int/float as independent reference, and a test of the Lean specifications against Python.",
         "note": "Trusted: Lean kernel + propext/Classical.choice/Quot.sound; the hand translation of the control flow of "
                 "Unicode.hpp and of fromHex/fromBase64 into Nstd/Codec/Model.lean (validated by the correspondence run, not proved); "
-                "the translator tools/gen_codec.py (regexes + a small C-expression translator; an unrecognised rewrite is reported as a "
-                "broken tie); libc behaviour (vsnprintf %d/%u/%lld/%llu, strtol/strtoul/strtoll/strtoull, glibc atoi/atoll, LP64) is "
+                "the translator tools/gen_codec.py (Unicode::length as a table by executing harness/codec_probe.cpp built from the current "
+                "sources; otherwise regexes + a small C expression/statement translator that interprets the per-byte tests of fromBase64 in "
+                "source order; a shape it cannot interpret is reported as a broken tie); libc behaviour (vsnprintf %d/%u/%lld/%llu, strtol/strtoul/strtoll/strtoull, glibc atoi/atoll, LP64) is "
                 "ASSUMED as Lean definitions - the integer theorems are relative to them, the real libc is exercised only by the "
                 "correspondence run; toDouble/fromDouble have no model and no theorem (harness vs Python float only); String's buffer "
                 "management (reserve/resize/append, area Str) is not modelled: the result buffers of fromBase64 (inlen bytes) and "
-                "fromHex (2*size bytes) are fixed blocks with checked writes.  The exhaustive runs (all code points, all byte strings "
+                "fromHex (2*size bytes) are fixed blocks with checked writes (fromBase64: exactly the bytes of its `result.reserve(E)` request).  The exhaustive runs (all code points, all byte strings "
                 "<= 3 bytes, all base64 strings <= 4 symbols over 68 symbols) are TESTS of the tie, not the proof.  isValid accepts "
                 "over-long forms / surrogates / > U+10FFFF by design of the code; isValid_spec states exactly that.",
         "design_ref": "DESIGN.md 3/C18",
